@@ -27,7 +27,7 @@ theorem decompLe_zipWith_append (D E : Decomp) (h : D.length ≤ E.length) : Dec
     rw [List.lookup_append, ha]
     rfl
   · rw [List.getElem?_eq_none (by omega)] at ha
-    simp [List.lookup] at ha
+    simp at ha
 
 theorem eq_of_mem_pairwise_g : ∀ (l : List IdxEntry), l.Pairwise (fun a b => a.g < b.g) →
     ∀ e₁ e₂, e₁ ∈ l → e₂ ∈ l → e₁.g = e₂.g → e₁ = e₂
